@@ -11,7 +11,7 @@ import vlib, cases
 from ledger import vdrive
 
 MC = dict(Contents={"c1", "c2"}, Encs={"canonical", "whitespace", "keyOrder"}, MaxH=3, Deviations=set())
-FAMILIES = ["benign", "stake", "deleg"]
+FAMILIES = ["benign", "stake", "deleg", "alleg", "eth"]
 
 
 def run(ctx, replay):
@@ -23,7 +23,7 @@ def run(ctx, replay):
     if dev["ok"] or "Invariant AtMostOnce is violated" not in dev["text"]:
         raise vlib.ToolFailure("the deviation transcribing the code's replay record did not produce the re-encoding counterexample")
     quick = ctx.quick()
-    n, blocks, per = (16, 10, 4) if quick else (120, 14, 6)
+    n, blocks, per = (10, 10, 4) if quick else (80, 14, 6)
     total = 0
     kinds = {}
     samples = []
